@@ -45,6 +45,7 @@ From ASModel Require Import Base State Orderings_gen Step Run Progress Hist Loca
 From ASModel Require Import GenDefs Gen1 Gen2 Gen EnvDefs Env4 Env AccDefs Acc1 Acc2 Acc3 Acc4 Acc5 Acc6 Acc7 Acc.
 From ASModel Require Import ProtDefs Prot1 Prot11 Prot16 Prot Typed LinDefs Lin2 Lin Safe1 Safe2 Safe7 Safe8 Safe Main GenLen ProgWF1 ProgWF.
 From ASModel Require Import Stale StaleInv.
+From ASModel Require Import Stale2 Stale2Inv.
 
 Theorem C02_dec : forall s a,
   match heap s a with
@@ -155,3 +156,19 @@ Proof. exact (StaleInv6.C02_no_owner_destroyed_stale cf inits progs sched a). Qe
 
 Print Assumptions C02_accounting_stale.
 Print Assumptions C02_no_owner_destroyed_stale.
+
+(** ** With all four stale loads of [Stale2.step_stale2] (see Props/C01.v). *)
+Theorem C02_accounting_stale2 cf inits progs sched :
+  RunOKS2 cf inits progs sched -> Acc (run_state_stale2 cf (init_state inits progs) sched).
+Proof. exact (Stale2Inv8.C02_accounting_stale2 cf inits progs sched). Qed.
+
+Theorem C02_no_owner_destroyed_stale2 cf inits progs sched a :
+  RunOKS2 cf inits progs sched ->
+  let s := run_state_stale2 cf (init_state inits progs) sched in
+  Quiescent s -> valid a ->
+  (forall c, mem (sh s) (LStore c) <> a) -> (forall h, href a (hnd s h) = 0) ->
+  mem (sh s) (LCount a) = 0 /\ heap (sh s) a = None /\ forall n j, mem (sh s) (LSlot n j) <> a.
+Proof. exact (Stale2Inv8.C02_no_owner_destroyed_stale2 cf inits progs sched a). Qed.
+
+Print Assumptions C02_accounting_stale2.
+Print Assumptions C02_no_owner_destroyed_stale2.
